@@ -42,11 +42,22 @@ def cases(tier, seed):
                 for lab, o in zoo.option_configs(name, data.dataset(dsn), tier)[:4]:
                     if not any(isinstance(v, np.ndarray) for v in o.values()):
                         out.append(('%s/%s/%s*2^13/first' % (name, lab, dsn), (name, lab, o, dsn + '*large', seed, 'first')))
+    # an SPD array option in single precision ("used as given": any float dtype), for the learner that iterates on it in place
+    for dsn in ('S3u', 'S5'):
+        for name in ('MMC', 'MMC_Supervised'):
+            o = {'init': data.spd(data.SPECS[dsn][0]).astype(np.float32)}
+            if name.endswith('_Supervised'):
+                o['random_state'] = 1
+            for hist in ('first', 'refit'):
+                out.append(('%s/init=array_float32/%s/%s' % (name, dsn, hist), (name, 'init=array_float32', o, dsn, seed, hist)))
     for dsn in data.names(tier):
         ds = data.dataset(dsn, seed) if dsn == 'R' else data.dataset(dsn)
         for name in zoo.ALL:
             for lab, o in zoo.option_configs(name, ds, tier):
-                for hist in (('first', 'refit', 'renamed_labels') if (zoo.KIND[name] == 'class' and 'n_components=1' not in lab) else ('first', 'refit')):
+                hists = ('first', 'refit', 'renamed_labels') if (zoo.KIND[name] == 'class' and 'n_components=1' not in lab) else ('first', 'refit')
+                if name == 'RCA':
+                    hists += ('renamed_chunks',)
+                for hist in hists:
                     out.append(('%s/%s/%s/%s' % (name, lab, dsn, hist), (name, lab, o, dsn, seed, hist)))
     return out
 
@@ -76,7 +87,7 @@ def run_case(spec):
     with warnings.catch_warnings(record=True) as w:
         warnings.simplefilter('always')
         try:
-            if hist in ('first', 'renamed_labels'):
+            if hist in ('first', 'renamed_labels', 'renamed_chunks'):
                 est = zoo.make(name, ds, **over)
             else:
                 other = data.dataset('S2' if d != 2 else 'S3')
@@ -90,6 +101,10 @@ def run_case(spec):
             targs = zoo.train_args(name, ds)
             if hist == 'renamed_labels':           # class NAMES that are neither contiguous nor ordered
                 targs = (targs[0], np.array([7, 3, 12, 5])[np.asarray(targs[1])])
+            if hist == 'renamed_chunks':           # chunklet names 3, 5, 7, .. (neither contiguous nor starting at 0)
+                ch = np.asarray(targs[1]).copy()
+                ch[ch >= 0] = 2 * ch[ch >= 0] + 3
+                targs = (targs[0], ch)
             r = est.fit(*targs)
         except Exception as e:
             return dict(evals=1, sigs=[], viol=[V(site, 'fit_raises', 'fit raised %s: %s' % (type(e).__name__, str(e)[:200]), tr)],
@@ -102,8 +117,8 @@ def run_case(spec):
     nc = est.get_params().get('n_components', None)
     if L.ndim != 2:
         viol.append(V(site, 'components_ndim', 'components_ has %d dimensions' % L.ndim, tr))
-    elif L.dtype != np.float64:
-        viol.append(V(site, 'components_dtype', 'components_ has dtype %s, expected float64' % L.dtype, tr))
+    elif L.dtype.kind != 'f':          # "a real ... float array" (a float32 array option legitimately yields float32 components)
+        viol.append(V(site, 'components_dtype', 'components_ has dtype %s, expected a real floating-point dtype' % L.dtype, tr))
     elif not np.isfinite(L).all():
         viol.append(V(site, 'components_finite', 'components_ contains NaN / inf', tr))
     else:
@@ -121,9 +136,11 @@ def run_case(spec):
                 viol.append(V(site, 'lowrank_warning', 'SCML returned %d < %d rows without the low-rank warning' % (k, d), tr))
         if L.shape[1] == d:
             M = est.get_mahalanobis_matrix()
-            if M.shape != (d, d) or not np.allclose(M, M.T, rtol=1e-12, atol=0):
+            # "up to rounding" means the rounding of the dtype the model is held in (a float32 array option yields a float32 model)
+            rnd = 1e-12 if L.dtype == np.float64 else 64 * float(np.finfo(L.dtype).eps)
+            if M.shape != (d, d) or not np.allclose(M, M.T, rtol=rnd, atol=0):
                 viol.append(V(site, 'M_symmetric', 'M is not a symmetric (d, d) matrix', tr))
-            elif np.linalg.eigvalsh((M + M.T) / 2).min() < -1e-12 * max(1e-300, np.abs(M).max()) * d:
+            elif np.linalg.eigvalsh((np.asarray(M, dtype=float) + np.asarray(M, dtype=float).T) / 2).min() < -rnd * max(1e-300, np.abs(M).max()) * d:
                 viol.append(V(site, 'M_psd', 'M is not positive semi-definite', tr))
             T = est.transform(ds.X)
             if T.shape != (n, k):
